@@ -925,3 +925,173 @@ Proof.
   apply andb_true_iff in H. destruct H as [He Hj]. split; [apply tobs_eqb_eq; exact He|].
   apply outs_justified_sound in Hj. destruct Hj as [Hc _]. exact Hc.
 Qed.
+
+(* ---------------------------------------------------------------------------------------------- *)
+(* the role a relayer takes *)
+
+Lemma role_iff_elected : forall c self,
+  takes_coordinator_role c self = true <-> c = Some self.
+Proof.
+  intros [c|] self; cbn [takes_coordinator_role].
+  - rewrite N.eqb_eq. split; [intros ->; reflexivity | intros H; inversion H; reflexivity].
+  - split; discriminate.
+Qed.
+
+Lemma role_only_elected : forall c self p,
+  c = Some p -> self <> p -> takes_coordinator_role c self = false.
+Proof.
+  intros c self p -> Hne. cbn [takes_coordinator_role].
+  apply N.eqb_neq. intros H. apply Hne. symmetry. exact H.
+Qed.
+
+Lemma one_coordinator_role : forall (key : peer -> N) l l' p q,
+  inj_on key l -> Permutation l l' ->
+  takes_coordinator_role (coordinator key l) p = true ->
+  takes_coordinator_role (coordinator key l') q = true -> p = q.
+Proof.
+  intros key l l' p q Hinj Hperm Hp Hq.
+  apply role_iff_elected in Hp. apply role_iff_elected in Hq.
+  rewrite (coordinator_perm_invariant key l l' Hinj Hperm) in Hp.
+  rewrite Hp in Hq. inversion Hq. reflexivity.
+Qed.
+
+(* ---------------------------------------------------------------------------------------------- *)
+(* several sessions on one relayer *)
+
+Lemma of_session_app : forall (A : Type) s (a b : list (session * A)),
+  of_session s (a ++ b) = of_session s a ++ of_session s b.
+Proof.
+  intros A s a b. unfold of_session. rewrite filter_app, map_app. reflexivity.
+Qed.
+
+Lemma of_session_tagged_same : forall (A : Type) (s : session) (o : list A),
+  of_session s (map (pair s) o) = o.
+Proof.
+  intros A s o. unfold of_session. induction o as [|x r IH]; cbn [map filter fst]; [reflexivity|].
+  rewrite N.eqb_refl. cbn [map snd]. f_equal. exact IH.
+Qed.
+
+Lemma of_session_tagged_other : forall (A : Type) (s s' : session) (o : list A),
+  N.eqb s' s = false -> of_session s (map (pair s') o) = [].
+Proof.
+  intros A s s' o Hne. unfold of_session. induction o as [|x r IH]; cbn [map filter fst]; [reflexivity|].
+  rewrite Hne. exact IH.
+Qed.
+
+(* PROJECTION: what the relayer does in session s, whatever else goes on in its other sessions and however
+   the events of the sessions interleave, is what a relayer serving s alone does on s's own events *)
+Lemma multi_projection2 : forall wcs cs script st s,
+  of_session s (multi_run2 wcs cs st script) = snd (run_wait2 (wcs s) (cs s) (st s) (of_session s script)).
+Proof.
+  intros wcs cs. induction script as [|[s0 m] r IH]; intros st s.
+  - reflexivity.
+  - cbn [multi_run2]. destruct (wait_step2 (wcs s0) (cs s0) (st s0) m) as [st' o] eqn:Hstep.
+    rewrite of_session_app. rewrite IH.
+    destruct (N.eqb s0 s) eqn:Hs.
+    + apply N.eqb_eq in Hs. subst s0.
+      rewrite of_session_tagged_same.
+      unfold of_session at 2. cbn [filter fst]. rewrite N.eqb_refl. cbn [map snd run_wait2].
+      rewrite Hstep. unfold upd. rewrite N.eqb_refl.
+      fold (of_session s r).
+      destruct (run_wait2 (wcs s) (cs s) st' (of_session s r)) as [st'' o']. reflexivity.
+    + rewrite (of_session_tagged_other _ s s0 o Hs). cbn [app].
+      unfold of_session at 2. cbn [filter fst]. rewrite Hs. fold (of_session s r).
+      unfold upd. rewrite N.eqb_sym in Hs. rewrite Hs. reflexivity.
+Qed.
+
+Lemma multi_projection : forall cs script st s,
+  of_session s (multi_run cs st script) = snd (run_wait (cs s) (st s) (of_session s script)).
+Proof.
+  intros cs script st s. unfold multi_run. rewrite multi_projection2. rewrite run_wait2_same. reflexivity.
+Qed.
+
+Lemma of_session_own_events : forall cs script s,
+  of_session s (own_events cs script)
+  = match cs s with
+    | Some c => filter (from_is c) (of_session s script)
+    | None => of_session s script
+    end.
+Proof.
+  intros cs script s. unfold own_events, of_session.
+  induction script as [|[s0 m] r IH]; cbn [filter map fst snd].
+  - destruct (cs s); reflexivity.
+  - destruct (N.eqb s0 s) eqn:Hs.
+    + apply N.eqb_eq in Hs. subst s0.
+      destruct (cs s) as [c|] eqn:Hc.
+      * destruct (from_is c m) eqn:Hf; cbn [filter map fst snd]; rewrite ?N.eqb_refl;
+          cbn [filter map fst snd]; rewrite ?Hf; [f_equal|]; exact IH.
+      * cbn [filter map fst snd]. rewrite N.eqb_refl. cbn [map snd]. f_equal. exact IH.
+    + destruct (match cs s0 with Some c => from_is c m | None => true end);
+        cbn [filter map fst snd]; rewrite ?Hs; exact IH.
+Qed.
+
+(* every watcher was told the coordinator of its session's attempt, or nothing *)
+Definition watchers_told (wcs cs : session -> option peer) : Prop :=
+  forall s c, cs s = Some c -> watcher_told (wcs s) c.
+
+(* a session is moved by the messages of ITS OWN coordinator only: messages of any other peer - the
+   coordinators of the relayer's other sessions included - change nothing in any session *)
+Lemma multi_only_own_coordinator2 : forall wcs cs script st s,
+  watchers_told wcs cs ->
+  of_session s (multi_run2 wcs cs st script) = of_session s (multi_run2 wcs cs st (own_events cs script)).
+Proof.
+  intros wcs cs script st s Htold. rewrite !multi_projection2. rewrite of_session_own_events.
+  destruct (cs s) as [c|] eqn:Hc; [|reflexivity].
+  rewrite (retry_only_coordinator_moves (wcs s) c (of_session s script) (st s) (Htold s c Hc)). reflexivity.
+Qed.
+
+Lemma multi_only_own_coordinator : forall cs script st s,
+  of_session s (multi_run cs st script) = of_session s (multi_run cs st (own_events cs script)).
+Proof.
+  intros cs script st s. unfold multi_run. apply multi_only_own_coordinator2.
+  intros s' c Hc. right. exact Hc.
+Qed.
+
+Lemma multi_judge_model2 : forall wcs cs script s c,
+  watchers_told wcs cs -> cs s = Some c ->
+  outs_justified c (of_session s script) (of_session s (multi_run2 wcs cs all_waiting script)) = true.
+Proof.
+  intros wcs cs script s c Htold Hc. rewrite multi_projection2. rewrite Hc. unfold all_waiting.
+  apply outs_justified_retry_model. apply Htold. exact Hc.
+Qed.
+
+Lemma multi_judge_model : forall cs script s c,
+  cs s = Some c ->
+  outs_justified c (of_session s script) (of_session s (multi_run cs all_waiting script)) = true.
+Proof.
+  intros cs script s c Hc. unfold multi_run. apply multi_judge_model2; [|exact Hc].
+  intros s' c' Hc'. right. exact Hc'.
+Qed.
+
+(* a message for session s from the coordinator of ANOTHER session (or anybody else) does nothing *)
+Lemma multi_foreign_event_nothing2 : forall wcs cs st s c m r,
+  watchers_told wcs cs -> cs s = Some c -> from_is c m = false ->
+  multi_run2 wcs cs st ((s, m) :: r) = multi_run2 wcs cs st r.
+Proof.
+  intros wcs cs st s c m r Htold Hc Hf. cbn [multi_run2]. rewrite Hc.
+  rewrite (wait_step2_foreign (wcs s) c (st s) m (Htold s c Hc) Hf). cbn [map app].
+  (* upd st s (st s) is st, pointwise; multi_run2 only ever applies the state *)
+  assert (Hext : forall script st1 st2, (forall k, st1 k = st2 k) ->
+                   multi_run2 wcs cs st1 script = multi_run2 wcs cs st2 script).
+  { induction script as [|[s0 m0] r0 IH]; intros st1 st2 Heq; [reflexivity|].
+    cbn [multi_run2]. rewrite (Heq s0). destruct (wait_step2 (wcs s0) (cs s0) (st2 s0) m0) as [st' o].
+    f_equal. apply IH. intros k. unfold upd. destruct (N.eqb k s0); [reflexivity | apply Heq]. }
+  apply Hext. intros k. unfold upd. destruct (N.eqb k s) eqn:Hk; [|reflexivity].
+  apply N.eqb_eq in Hk. subst k. reflexivity.
+Qed.
+
+Lemma multi_foreign_event_nothing : forall cs st s c m r,
+  cs s = Some c -> from_is c m = false ->
+  multi_run cs st ((s, m) :: r) = multi_run cs st r.
+Proof.
+  intros cs st s c m r Hc Hf. unfold multi_run. apply (multi_foreign_event_nothing2 cs cs st s c m r); try assumption.
+  intros s' c' Hc'. right. exact Hc'.
+Qed.
+
+(* as coded the watcher of a retried attempt is told nothing: no session in its retried attempt is ever
+   aborted by a fail message *)
+Lemma multi_retried_never_aborts : forall wcs cs script st s,
+  wcs s = None -> ~ In OAbort (of_session s (multi_run2 wcs cs st script)).
+Proof.
+  intros wcs cs script st s Hw. rewrite multi_projection2. rewrite Hw. apply retry_as_coded_never_aborts.
+Qed.
